@@ -1,7 +1,7 @@
 (** C12 — malformed AML is rejected with an error, never a crash, hang or stray pointer.
     Statements only; every proof is [exact <lemma>] (Aml/LexProofs.v). *)
 From Coq Require Import NArith List.
-From FF Require Import Lib.Word Gen.Consts_device_acpi_aml Aml.Stream Aml.Lex Aml.LexProofs Aml.Tree Aml.TreeSpec Aml.Parser Aml.ParserProofs Aml.ParserProofsTop Aml.ParserTotalFirst Aml.ParserTotalConn Aml.ParserTotalTop Aml.ParserTotalNonNamed Aml.ParserTotalCalls Aml.ParserTotalReloc Aml.ParserTotalMerge Aml.ParserTotalResolve Aml.ParserTotalBase Aml.ParserTotalLex Aml.ParserTotalTree Aml.ParserTotalDefer Aml.ParserTotalDeferW Aml.ParserTotalDeferV Aml.ParserTotalTyped Aml.ParserTotalShape Aml.ParserTotalChain Aml.ParserTotalConn2 Aml.ParserTotalPass2.
+From FF Require Import Lib.Word Gen.Consts_device_acpi_aml Aml.Stream Aml.Lex Aml.LexProofs Aml.Tree Aml.TreeSpec Aml.Parser Aml.ParserProofs Aml.ParserProofsTop Aml.ParserTotalFirst Aml.ParserTotalConn Aml.ParserTotalTop Aml.ParserTotalNonNamed Aml.ParserTotalCalls Aml.ParserTotalReloc Aml.ParserTotalMerge Aml.ParserTotalResolve Aml.ParserTotalBase Aml.ParserTotalLex Aml.ParserTotalTree Aml.ParserTotalDefer Aml.ParserTotalDeferW Aml.ParserTotalDeferV Aml.ParserTotalTyped Aml.ParserTotalShape Aml.ParserTotalChain Aml.ParserTotalConn2 Aml.ParserTotalPass2 Aml.ParserTotalBenign Aml.ParserTotalFirst2 Aml.ParserTotalPass1.
 Import ListNotations.
 Local Open Scope N_scope.
 
@@ -623,3 +623,67 @@ Theorem C12_parse_total_partial_nopanic_rest2 :
     end.
 Proof. exact rest2_never_panics. Qed.
 Print Assumptions C12_parse_total_partial_nopanic_rest2.
+
+(** [parse_total_partial] (17), hypotheses of the later passes DERIVED from the first pass: from the initial state of ANY table over
+    ANY pool that satisfies [R] with valid indexes, a live parentless ScopeBlock root, typed Methods (TM2) and no object that
+    already carries the handle of the new table, the first pass never panics and, when it succeeds, leaves an empty scope stack
+    and [LI]: the root facts again, ScopeBlocks on the (now empty) scope stack, TM2 for ALL Methods including the new ones, PEND
+    (every pending deferred object has a parent and is no name-path-or-call object), and the structure of every Scope directive
+    of the new table (tySw: row without the named flag, exactly two children - a childless name-path object carrying a []byte
+    and a ScopeBlock).  Proof: a frame version of the first pass (ParserTotalFirst2.v; what one parseNextObject leaves alone, the
+    shape of the object it finishes read off its opcode-table row), the judgement [bn] (ParserTotalBenign.v: below parseNextObject
+    no Method / Scope object and no object with a deferred row appears), and the invariant step LI_next_holds. *)
+Theorem C12_parse_total_partial_first_pass_shape :
+  forall (tree : T) (g : ghost) (earlier : list (list N)) (handle : N) (data : list N) (fuel : nat),
+    R tree g ->
+    (forall i o, TreeSpec.get tree i = Some o -> o_opcode o <> opFreed -> opInfo (o_infoIndex o) <> None) ->
+    glive g 0 -> groot g 0 ->
+    (exists o, TreeSpec.get tree 0 = Some o /\ o_opcode o = aml_pOpIntScopeBlock) ->
+    TM2 tree g -> (forall i o, TreeSpec.get tree i = Some o -> o_tableHandle o <> handle) ->
+    image_small data ->
+    N.of_nat (length (t_pool tree)) + 4 * N.of_nat (length data) + 4 <= InvalidIndex ->
+    match first_pass fuel (init_state tree earlier handle data) with
+    | Ok (res, s') => exists g', R (p_tree s') g' /\
+        (forall i o, TreeSpec.get (p_tree s') i = Some o -> o_opcode o <> opFreed -> opInfo (o_infoIndex o) <> None) /\
+        rok (p_r s') /\ (res = ROk \/ res = RFailed) /\
+        (res = ROk -> LI s' g' /\ p_scopeStack s' = [])
+    | Panic => False
+    | OutOfFuel => True
+    end.
+Proof. exact first_pass_establishes. Qed.
+Print Assumptions C12_parse_total_partial_first_pass_shape.
+
+(** [parse_total] END TO END, modulo two facts about NAMES: ParseAML (parseAML_body with any fuel, all six passes) from the initial
+    state of any table over any pool with [R], valid indexes, a live parentless ScopeBlock root, typed Methods (TM2), []byte-typed
+    name-path-or-call objects, slices inside the earlier tables, no object with the handle of the new table, and the explicit
+    (generous, quadratic) memory bound NEVER panics, and when it returns the pool satisfies [R], valid indexes and slices-inside -
+    PROVIDED that in the state the first pass produces ([NAMEOK]) (1) the name field of every Scope directive of the new table has
+    no lead character (newObject keeps the name of a reused free slot; true whenever the free slots carry no names), and (2) the
+    []byte of every name-path object is a good path (a four-byte path starts with a name character, \ or ^ - a property of
+    parseNameString).  These two facts are the ONLY missing lemmas of the unconditional theorem; everything else - the typing of
+    Methods, the Scope-directive structure, parents of pending objects, the []byte typing, existence and bound of the walk count,
+    reader / stack / pool-size facts - is derived and chained through all passes.  Fuel exhaustion is not excluded. *)
+Theorem C12_parse_total_nopanic_if_names :
+  forall (tree : T) (g : ghost) (earlier : list (list N)) (handle : N) (data : list N) (fuel : nat),
+    R tree g ->
+    (forall i o, TreeSpec.get tree i = Some o -> o_opcode o <> opFreed -> opInfo (o_infoIndex o) <> None) ->
+    glive g 0 -> groot g 0 ->
+    (exists o, TreeSpec.get tree 0 = Some o /\ o_opcode o = aml_pOpIntScopeBlock) ->
+    TM2 tree g ->
+    (forall i o, TreeSpec.get tree i = Some o -> o_opcode o <> opFreed -> o_opcode o = aml_pOpIntNamePathOrMethodCall ->
+                 exists tbl sl, o_value o = Some (VBytes tbl sl)) ->
+    pool_ok earlier tree ->
+    (forall i o, TreeSpec.get tree i = Some o -> o_tableHandle o <> handle) ->
+    image_small data ->
+    (let L := N.of_nat (length (t_pool tree)) + 4 * N.of_nat (length data) + 2 in
+     L + L * (8 * N.of_nat (length data) + 3) + 4 <= InvalidIndex) ->
+    (forall s1, first_pass fuel (init_state tree earlier handle data) = Ok (ROk, s1) -> NAMEOK s1) ->
+    match parseAML_body fuel (init_state tree earlier handle data) with
+    | Ok (_, s') => exists g', R (p_tree s') g' /\
+        (forall i o, TreeSpec.get (p_tree s') i = Some o -> o_opcode o <> opFreed -> opInfo (o_infoIndex o) <> None) /\
+        pool_ok (p_tables s') (p_tree s')
+    | Panic => False
+    | OutOfFuel => True
+    end.
+Proof. exact parseAML_body_never_panics_if_names. Qed.
+Print Assumptions C12_parse_total_nopanic_if_names.
